@@ -35,8 +35,10 @@ def adjudicate(pending):
         # ring as stored, and that differs from the declared role because the f64 sum loses the
         # sign somewhere (the constructor could not orient the ring; the reader repeats the
         # same test). A role that the documented test on the stored ring does NOT yield is not
-        # explained by that finding, whatever the floats look like.
-        sign_lost = (p['read'] == f_fwd)
+        # explained by that finding, whatever the floats look like; and a ring on which the f64 test
+        # is right both as stored and reversed was not mis-oriented by floating point at all.
+        rev_exact = 'inner' if exact_role == 'outer' else 'outer'
+        sign_lost = (p['read'] == f_fwd) and ((f_fwd != exact_role) or (f_rev != rev_exact))
         sig = 'role-flip:f64-sign-lost' if sign_lost else 'role-flip:other'
         v = violations.setdefault(sig, {'sig': sig, 'case': p['case'], 'count': 0,
                                         'detail': dict(p, exact_orientation=exact_role, f64_test_on_stored_ring=f_fwd,
